@@ -58,6 +58,15 @@ class Monitor:
             self.obligations.setdefault(slot, self.env.tick_no)
             self.facts.add("dead-observed")
 
+    def on_death(self, proc: Any) -> None:
+        """Ground truth, independent of what the manager looks at: the process occupying a slot has
+        died in this tick (during the sleep, or right after being started). The end-of-tick scan of a
+        correct manager sees it in the same tick; a manager that does not look still owes the replacement."""
+        env = self.env
+        slot = env.slot_of(proc.name)
+        if slot < len(env.manager.workers) and env.manager.workers[slot] is proc:
+            self.obligations.setdefault(slot, max(env.tick_no, 0))
+
     def on_tick_boundary(self) -> None:
         env = self.env
         if env.manager is None or not env.prepared or env.tick_no < 0:
@@ -69,11 +78,14 @@ class Monitor:
         names = sorted(p.name for p in env.manager.workers)
         if names != sorted(f"worker-{i}" for i in range(env.nworkers)):
             self.flag("C17:slot-names-changed", f"worker names {names}")
+        for p in env.pending_deaths:  # workers that died right after being started in this tick
+            self.on_death(p)
+        env.pending_deaths = []
         for slot, t in list(self.obligations.items()):
             if t <= env.tick_no - 1:
                 self.flag(
                     "C17:dead-worker-not-replaced",
-                    f"slot {slot} observed dead at the scan of tick {t}, still not replaced at the end of tick {env.tick_no}",
+                    f"slot {slot} dead since tick {t}, still not replaced at the end of tick {env.tick_no}",
                 )
         # restarts requested by a reload-all: every slot whose reload-all restart was handled
         # (dequeued) in this tick has been restarted exactly once in this tick
